@@ -225,7 +225,11 @@ func ruleEvalWrite(c *engine.Context) *report.Rule {
 			f := r.Violation(construct+" → shared", p.RelPos(e.Instr.Pos()),
 				"%s in %s may write memory that outlives the call and is shared between calls (targets: %s)", describeStore(p, e.Instr), load.FuncName(e.Fn), strings.Join(bad, ", "))
 			f.Witness = witness
-			engine.Restrict(f, "C05", "C06", "C19")
+			props := []string{"C05", "C06", "C19"}
+			if collectsKeys(e.Fn) {
+				props = append(props, "C07") // a key buffer shared between evaluations makes order schedule-dependent
+			}
+			engine.Restrict(f, props...)
 		}
 	}
 	return r
@@ -272,7 +276,7 @@ func ruleDocExt(c *engine.Context) *report.Rule {
 			continue
 		}
 		r.Instances++
-		ok := ec.Tabled && (ec.Class == regions.ClPure || ec.Class == regions.ClUserFn || ec.Class == regions.ClPoolPut)
+		ok := ec.Tabled && (ec.Class == regions.ClPure || ec.Class == regions.ClPassThru || ec.Class == regions.ClUserFn || ec.Class == regions.ClPoolPut)
 		r.Oblige(ok)
 		r.Sample("%s called from %s with document memory: class %s", ec.Callee, load.FuncName(ec.Fn), ec.Class)
 		if !ok {
@@ -285,7 +289,7 @@ func ruleDocExt(c *engine.Context) *report.Rule {
 
 // ruleSetUserOnly: the library never calls the closures it hands out as Accessor.Set/Get.
 func ruleSetUserOnly(c *engine.Context) *report.Rule {
-	r := report.NewRule("R-SET-USERONLY", "closures stored in Accessor fields are never called by the library itself", 4)
+	r := report.NewRule("R-SET-USERONLY", "closures stored in Accessor fields are never called by the library itself", 2)
 	a := regionsOf(c)
 	p := c.P
 	for _, fn := range p.Funcs {
@@ -436,8 +440,53 @@ func ruleGlobals(c *engine.Context) *report.Rule {
 		r.Oblige(ok)
 		r.Sample("%s: %s; writers outside init: %d", g.Name(), verdict, len(writers))
 		if !ok {
-			r.Violation("global "+g.Name()+" written after init", p.RelPos(g.Pos()),
-				"package-level variable %s (%s) is written outside package initialisation by: %s", g.Name(), verdict, strings.Join(writers, "; "))
+			// who can access it: functions mentioning the global or holding memory it owns
+			nonParse, _ := outsideParse(c)
+			accessOutside, accessEval := "", false
+			for _, fn := range p.Funcs {
+				if fn.Blocks == nil || fn.Name() == "init" {
+					continue
+				}
+				acc := false
+				for _, b := range fn.Blocks {
+					for _, ins := range b.Instrs {
+						for _, op := range ins.Operands(nil) {
+							if *op == ssa.Value(g) {
+								acc = true
+							}
+						}
+						if v, isV := ins.(ssa.Value); isV && !acc {
+							if n := a.ValueNode(v); n != nil {
+								for _, o := range n.Pts() {
+									if owned[o.Root()] && o.Root() != go_ && o.Root().Kind == regions.KAlloc {
+										acc = true
+									}
+								}
+							}
+						}
+					}
+				}
+				if !acc {
+					continue
+				}
+				if nonParse[fn] && accessOutside == "" {
+					accessOutside = load.FuncName(fn)
+				}
+				if a.EvalReach[fn] {
+					accessEval = true
+				}
+			}
+			f := r.Violation("global "+g.Name()+" written after init", p.RelPos(g.Pos()),
+				"package-level variable %s is neither a sync primitive nor the parser that is reset on every exit of Parse, and it is written outside package initialisation by: %s — state survives from one call to the next%s", g.Name(), strings.Join(writers, "; "),
+				map[bool]string{true: "; it is also accessed without the parser lock by " + accessOutside, false: " (all accesses happen under the parser lock)"}[accessOutside != ""])
+			props := []string{"C19"}
+			if accessEval {
+				props = append(props, "C05")
+			}
+			if accessOutside != "" {
+				props = append(props, "C06")
+			}
+			engine.Restrict(f, props...)
 		}
 	}
 	return r
@@ -446,6 +495,17 @@ func ruleGlobals(c *engine.Context) *report.Rule {
 func uniqSorted(s []string) []string {
 	sort.Strings(s)
 	return uniq(s)
+}
+
+// reflectReadOnly is the modelled (read-only) part of package reflect.
+var reflectReadOnly = map[string]bool{
+	"reflect.TypeOf": true, "reflect.DeepEqual": true, "reflect.ValueOf": true, "reflect.Indirect": true,
+	"(reflect.Type).String": true, "(reflect.Type).Kind": true, "(reflect.Type).Name": true, "(reflect.Type).Elem": true,
+	"(reflect.Value).Elem": true, "(reflect.Value).Index": true, "(reflect.Value).MapIndex": true, "(reflect.Value).Field": true,
+	"(reflect.Value).Interface": true, "(reflect.Value).Type": true, "(reflect.Value).Kind": true, "(reflect.Value).IsNil": true,
+	"(reflect.Value).IsValid": true, "(reflect.Value).IsZero": true, "(reflect.Value).Pointer": true, "(reflect.Value).UnsafePointer": true,
+	"(reflect.Value).Len": true, "(reflect.Value).NumField": true, "(reflect.Value).String": true, "(reflect.Value).Int": true,
+	"(reflect.Value).Float": true, "(reflect.Value).Bool": true, "(reflect.Value).CanInterface": true,
 }
 
 // ruleImports: G-7 premises.
@@ -491,10 +551,10 @@ func ruleImports(c *engine.Context) *report.Rule {
 					continue
 				}
 				r.Instances++
-				ok2 := name == "reflect.TypeOf" || name == "reflect.DeepEqual" || name == "(reflect.Type).String"
+				ok2 := reflectReadOnly[name]
 				r.Oblige(ok2)
 				if !ok2 {
-					r.Undischarged("reflect use "+name+" in "+load.FuncName(fn), p.RelPos(ins.Pos()), "use of %s is outside the modelled reflect subset {TypeOf, DeepEqual, Type.String}", name)
+					r.Undischarged("reflect use "+name+" in "+load.FuncName(fn), p.RelPos(ins.Pos()), "use of %s is outside the modelled read-only reflect subset", name)
 				}
 			}
 		}
@@ -530,4 +590,23 @@ func ruleEngineSanity(c *engine.Context) *report.Rule {
 		}
 	}
 	return r
+}
+
+// collectsKeys: the function ranges over a map or sorts strings (it builds the key order).
+func collectsKeys(fn *ssa.Function) bool {
+	for _, b := range fn.Blocks {
+		for _, ins := range b.Instrs {
+			switch x := ins.(type) {
+			case *ssa.Range:
+				if _, ok := x.X.Type().Underlying().(*types.Map); ok {
+					return true
+				}
+			case *ssa.Call:
+				if _, ok := byteWiseSort(x); ok {
+					return true
+				}
+			}
+		}
+	}
+	return false
 }
